@@ -145,6 +145,26 @@ fn script(req: &Value) -> Value {
                     .collect();
                 out.push(Value::Array(v))
             }
+            "block_schedules" => {
+                // per block: {"sched": [[index, start bits, duration bits] sorted by index, total bits]} or {"sched_err": variant}
+                use quil_rs::instruction::DefaultHandler;
+                use quil_rs::program::analysis::ControlFlowGraph;
+                let p = get(&regs, &a[1]);
+                let cfg = ControlFlowGraph::from(&p);
+                let mut v = vec![];
+                for b in cfg.into_blocks() {
+                    v.push(match b.as_schedule_seconds(&p, &DefaultHandler) {
+                        Ok(s) => {
+                            let mut items: Vec<(usize, u64, u64)> =
+                                s.items().iter().map(|it| (it.instruction_index, it.time_span.start_time().0.to_bits(), it.time_span.duration().0.to_bits())).collect();
+                            items.sort();
+                            json!({"sched": [items.iter().map(|(i, s, d)| json!([i, format!("{s:016x}"), format!("{d:016x}")])).collect::<Vec<_>>(), bits(s.duration().0)]})
+                        }
+                        Err(e) => json!({"sched_err": format!("{e:?}").split(|c: char| !c.is_alphanumeric()).next().unwrap_or("").to_string()}),
+                    });
+                }
+                out.push(Value::Array(v))
+            }
             _ => return json!({"unknown_script_op": op}),
         }
     }
